@@ -169,6 +169,8 @@ def shard(arg):
         for i in range(count):
             rng = fw.rng_for("c06c", seed, n, sid, i)
             ops = members.random_clifford_ops(n, rng, rng.choice([5, 10, 20, 40]))
+            if i % 2 == 1:      # every other circuit starts with H everywhere and entangles heavily: near-uniform over all groups
+                ops = [("h", (q_,)) for q_ in range(n)] + members.random_clifford_ops(n, rng, 60, p2=0.5)
             gens = members.group_of_circuit(n, ops)
             acc.see(gens, "random-circuit", rng if i % 8 == 0 else None)
         acc.finish()
